@@ -79,6 +79,25 @@ pub struct Digest<'a> {
 }
 
 pub fn op_of<'s>(scn: &'s Scenario, th: u32, ix: u32) -> Option<&'s Op> {
+    if th >= 1000 {
+        // operation issued from inside effect (th - 1000)
+        let id = th - 1000;
+        for a in &scn.actions {
+            for (_, e) in &a.effects {
+                if e.id == id {
+                    return e.ops.get(ix as usize);
+                }
+            }
+        }
+        for o in scn.all_ops() {
+            if let Op::DispatchThunk { eff, .. } | Op::DispatchTask { eff, .. } = o {
+                if eff.id == id {
+                    return eff.ops.get(ix as usize);
+                }
+            }
+        }
+        return None;
+    }
     if th == 0 {
         let i = ix as usize;
         if i < scn.prelude.len() {
